@@ -140,6 +140,32 @@ def raw_work(payload):
                 elif not close(got, ref, 1e-9):
                     k = int(np.argmax(np.abs(got - ref)))
                     res.violation("Gamma2:below-value", "Gamma2(L=%d,d=%r,m0=%r) at m=%r (q^2=%.4g, q0^2=%.4g): %r, documented formula %r" % (L, d, m0, float(mb[k]), float(q2[k]), float(q02), complex(got[k]), complex(ref[k])), case)
+    # symbolic use first, numeric use afterwards (and the symbolic polynomial itself): the two share coefficient tables
+    import sympy as sym
+
+    import tf_pwa.formula as fm
+
+    for L in payload["Ls"]:
+        case = {"part": "raw", "L": L, "d": 3.0, "seed": seed, "order": "symbolic-then-numeric"}
+        z = sym.Symbol("z", positive=True)
+        zs = np.array([0.0, 0.01, 0.3, 1.0, 2.7, 9.0])
+        ref = np.array([R.bw_barrier_sq(L, x) for x in zs])
+        for rep_ in range(2):
+            pol = fm.Bprime_polynomial(L, z * z)
+            gs_ = np.array([float(pol.subs(z, float(x))) for x in zs])
+            res.case(nontrivial_key=("poly-sym", L, rep_))
+            if not close(gs_, ref, 1e-12):
+                res.violation("barrier:polynomial-symbolic", "formula.Bprime_polynomial(L=%d) (call %d) != |theta_L(iz)|^2 : %r vs %r" % (L, rep_ + 1, gs_.tolist(), ref.tolist()), case)
+            got = bw.Bprime_polynomial(L, c(zs * zs)).numpy()
+            res.case(nontrivial_key=("poly-after-sym", L, rep_))
+            if not close(got, ref, 1e-12):
+                res.violation("barrier:polynomial-after-symbolic", "Bprime_polynomial(L=%d) evaluated after the symbolic polynomial of the same L was built: %r, expected %r" % (L, got.tolist(), ref.tolist()), case)
+        m0, g0 = 1.3, 0.3
+        q0 = float(q_of(m0, M1, M2))
+        q = q_of(ms, M1, M2)
+        val = bw.BWR(c(ms), c(m0), c(g0), c(q), c(q0), L, 3.0).numpy()
+        if not close(val, R.bwr(ms, m0, g0, q, q0, L, 3.0), 1e-10):
+            res.violation("BWR:after-symbolic", "BWR(L=%d) evaluated after symbolic use deviates from the documented formula" % L, case)
     res.sample({"part": "raw", "Ls": payload["Ls"], "m_lattice": ms[:4].tolist()}, limit=1)
     return res.done()
 
